@@ -164,12 +164,15 @@ def main(ctx):
                     for agent in ({"kind": "scripted", "script": [1, 0, 0, 1]}, {"kind": "scripted", "script": [0, 1]}, {"kind": "eps", "eps": 0.5, "seed": S, "alpha": 0.5}):
                         cfg = {"shape": shape, "losses": "mixed", "agent": agent, "samplers": "with_halton", "fault": {"session": si, "batch": bi, "where": where}}
                         cells.append({"cfg": cfg, "mode": "sync", "bound": None, "max_execs": 20000, "por": True})
+                        if agent["kind"] == "scripted" and len(agent["script"]) == 4:
+                            # the same with a Ctrl-C (a BaseException that is not an Exception) instead of an error
+                            cells.append({"cfg": dict(cfg, fault=dict(cfg["fault"], kind="interrupt")), "mode": "sync", "bound": None, "max_execs": 20000, "por": True})
     # second driver: the real Calibrator.calibrate (real samplers, model, loss), one calibrate() call per session
     for shape in ([[2], [1, 2], [2, 2]] if ctx.quick else [[1], [2], [3], [1, 1], [1, 2], [2, 2], [2, 1, 2]]):
         for agent in ({"kind": "scripted", "script": [1, 0, 1]}, {"kind": "eps", "eps": 0.5, "seed": S, "alpha": 0.5}):
             for samplers in ("with_halton", "without_halton"):
                 cells.append({"cfg": {"shape": shape, "losses": "real", "agent": agent, "samplers": samplers, "seed": S}, "mode": "sync", "bound": None, "max_execs": 4000, "driver": "calibrator", "por": True})
-    ctx.bounds = {"shapes": shapes, "faults": "a batch failing before / after the agent's action was taken, at every batch of every non-final session of [2,2],[1,3],[3,2] (thorough: 6 shapes), followed by the remaining sessions",
+    ctx.bounds = {"shapes": shapes, "faults": "a batch failing (error or keyboard interrupt) before / after the agent's action was taken, at every batch of every non-final session of [2,2],[1,3],[3,2] (thorough: 6 shapes), followed by the remaining sessions",
                   "second_driver": "real Calibrator.calibrate on [2],[1,2],[2,2] (thorough: 7 shapes), all interleavings modulo independence", "tierA": "ALL interleavings modulo commutation of independent steps (sleep-set reduction) for every shape and configuration; unreduced all-interleavings cross-check on shapes [1],[2]; unreduced search with preemption bound " + ("2" if ctx.quick else "3") + " on every fourth configuration of the larger shapes",
                   "tierB_shapes": tierb_shapes, "tierB_preemption_bound": "1" if ctx.quick else "2 (1 for > 4 batches)",
                   "agents": "all scripted action sequences over {0,1} (length <= 3 quick / 4 thorough) + eps-greedy eps {0,.5} seeds {S,S+1}",
